@@ -323,7 +323,10 @@ StepField(o, n) ==
          IF hit = {} THEN {NoRes}
          ELSE Lenient({Val(v.kv[i][2], Sub(o.at, "#" \o ToString(i))) : i \in hit})
     [] v.k \in {"vec", "vecdeque"} ->
-         IF n = "buf" THEN Lenient({Val(Arr(v.items), NoPlace)}) ELSE {NoRes}
+         IF n = "buf"                                \* the data as an array: its elements are places
+         THEN Lenient({Val(Arr(v.items), IF o.at.p = <<>> \/ o.at.p = <<"?">> THEN o.at
+                                        ELSE [p |-> o.at.p, lo |-> o.at.lo, whole |-> FALSE])})
+         ELSE {NoRes}
     [] OTHER -> {NoRes}
 
 StepIndex(o, l) ==
@@ -367,7 +370,9 @@ StepSlice(o, l, r) ==
          ELSE LET lo == IF l = <<>> THEN 0 ELSE l[1]
                   hi == r[1]
                   p  == v.path
-                  inArr == Len(p) >= 2 /\ IsIdxStr(Last(p)) /\ IsArrayLike(Lookup(Front(p))) IN
+                  \* neighbours in memory are the neighbouring elements for arrays and vectors only
+                  \* (a VecDeque is a ring buffer)
+                  inArr == Len(p) >= 2 /\ IsIdxStr(Last(p)) /\ Lookup(Front(p)).k \in {"array", "vec"} IN
               IF lo > hi THEN {NoRes}
               ELSE IF inArr
                    THEN LET par == Lookup(Front(p))
